@@ -997,6 +997,251 @@ prealert_case(long long seed, long idx)
 	vf_distinct("prealert_cfg", "r%d/l%d/t%d/w%d", role, layout, tk, lead);
 }
 
+/* ------------------------------------------------------------------ */
+/* br_sslio_* over a hostile transport: short reads and writes of any size, a hard
+ * failure of the n-th read or write callback, either role under the wrapper (the peer
+ * is a plain engine pumped from inside the callbacks), read / read_all / write /
+ * write_all / flush / close mixed */
+
+#include <setjmp.h>
+static jmp_buf io2_escape;
+
+typedef struct {
+	tp_ep *me, *peer;
+	tp_fifo *in, *out;          /* peer->me, me->peer */
+	size_t peer_target;         /* bytes the peer application writes */
+	vf_rng r;
+	int short_io;
+	long fail_read_at, fail_write_at;   /* callback call index (0-based) that fails; -1: never */
+	long n_read, n_write;
+	int failed;                 /* a callback has returned -1 (injected) */
+	int eof;                    /* the transport had nothing more to deliver */
+	long calls_after_failure;
+} io2_ctx;
+
+/* let the peer engine and its application make one step; returns 0 when it cannot move */
+static int
+io2_peer_step(io2_ctx *io)
+{
+	tp_ep *pe = io->peer;
+	unsigned st = br_ssl_engine_current_state(pe->eng);
+	size_t l;
+	if (st & BR_SSL_CLOSED) return 0;
+	if (st & BR_SSL_SENDREC) { tp_act_sendrec(pe, io->in, 100000); return 1; }
+	if (st & BR_SSL_RECVAPP) { while (br_ssl_engine_recvapp_buf(pe->eng, &l)) tp_act_read(pe, l); return 1; }
+	if ((st & BR_SSL_RECVREC) && tp_fifo_len(io->out) > 0) { br_ssl_engine_recvrec_buf(pe->eng, &l); tp_act_recvrec(pe, io->out, l); return 1; }
+	if ((st & BR_SSL_SENDAPP) && pe->tx_done < io->peer_target) {
+		br_ssl_engine_sendapp_buf(pe->eng, &l);
+		if (l > io->peer_target - pe->tx_done) l = io->peer_target - pe->tx_done;
+		if (io->short_io && l > 1) l = 1 + vf_below(&io->r, (uint32_t)l);
+		tp_act_write(pe, l); tp_act_flush(pe, 0);
+		return 1;
+	}
+	return 0;
+}
+
+static int
+io2_read(void *ctx, unsigned char *data, size_t len)
+{
+	io2_ctx *io = ctx;
+	int guard = 0;
+	if (io->failed && ++ io->calls_after_failure > 200) longjmp(io2_escape, 1);   /* the wrapper keeps calling a dead transport */
+	if (io->n_read ++ == io->fail_read_at) { io->failed = 1; return -1; }
+	for (;;) {
+		size_t k = tp_fifo_len(io->in);
+		if (k > 0) {
+			if (k > len) k = len;
+			if (io->short_io && k > 1) k = 1 + vf_below(&io->r, (uint32_t)(k > 64 ? 64 : k));
+			memcpy(data, io->in->data + io->in->rd, k);
+			io->in->rd += k;
+			return (int)k;
+		}
+		if (guard ++ > 200000 || !io2_peer_step(io)) { io->eof = 1; return -1; }
+	}
+}
+
+static int
+io2_write(void *ctx, const unsigned char *data, size_t len)
+{
+	io2_ctx *io = ctx;
+	size_t k = len;
+	if (io->failed && ++ io->calls_after_failure > 200) longjmp(io2_escape, 1);
+	if (io->n_write ++ == io->fail_write_at) { io->failed = 1; return -1; }
+	if (io->short_io && k > 1) k = 1 + vf_below(&io->r, (uint32_t)(k > 100 ? 100 : k));
+	tp_fifo_put(io->out, data, k);
+	return (int)k;
+}
+
+static void
+sslio2_case(long long seed, long idx)
+{
+	sess s;
+	io2_ctx io;
+	br_sslio_context ioc;
+	uint16_t sl[1];
+	static unsigned char buf[4096];
+	int role = (int)(idx & 1), fault = (int)((idx >> 1) % 4);   /* 0 none, 1 read fails, 2 write fails, 3 none + close while the peer still sends */
+	size_t my_total, sent = 0, got = 0;
+	int failed_seen = 0, op, guard = 0, rc = 0;
+	char what[300];
+	memset(&s, 0, sizeof s); memset(&io, 0, sizeof io);
+	vf_rng_init(&io.r, (uint64_t)seed, (uint64_t)idx * 3 + 7);
+	s.si = tp_suite_find(modes[(idx / 8) % NMODES]);
+	s.version = s.si->tls12only ? 0x0303 : 0x0301 + (unsigned)(((idx / 8) / NMODES) % 3);
+	tp_cfg_default(&s.cc, 0); tp_cfg_default(&s.sc, 1);
+	sl[0] = s.si->id; s.cc.suites = sl; s.cc.nsuites = 1; s.cc.vmin = s.cc.vmax = s.version;
+	s.sc.keykind = tp_key_for_suite(s.si, 0);
+	s.cc.layout = (int)vf_below(&io.r, 3); s.sc.layout = (int)vf_below(&io.r, 3);
+	{
+		tp_cfg *cf[2] = { &s.cc, &s.sc };
+		int q;
+		for (q = 0; q < 2; q ++) {
+			if (cf[q]->layout == TP_LAYOUT_MONO) cf[q]->buflen = BR_SSL_BUFSIZE_MONO;
+			else if (cf[q]->layout == TP_LAYOUT_SPLIT1) cf[q]->buflen = BR_SSL_BUFSIZE_BIDI;
+			else { cf[q]->buflen = BR_SSL_BUFSIZE_INPUT; cf[q]->buflen_out = BR_SSL_BUFSIZE_OUTPUT; }
+		}
+	}
+	vf_bytes(&io.r, s.cc.seed, 32); vf_bytes(&io.r, s.sc.seed, 32);
+	tp_pair_init(&s.p, 1, (uint64_t)idx, TP_CHUNK_WHOLE);
+	if (!tp_ep_start(&s.p.c, &s.cc) || !tp_ep_start(&s.p.s, &s.sc)) { TP_VIOL("setup", "reset failed"); tp_pair_free(&s.p); return; }
+	s.p.c.tx_key = 0x61; s.p.s.tx_key = 0x62; s.p.c.rx_key = 0x62; s.p.s.rx_key = 0x61;
+	io.me = role == 0 ? &s.p.c : &s.p.s; io.peer = role == 0 ? &s.p.s : &s.p.c;
+	io.in = role == 0 ? &s.p.s2c : &s.p.c2s; io.out = role == 0 ? &s.p.c2s : &s.p.s2c;
+	/* with a shared buffer the wrapper cannot write while unread data is pending: keep the exchange
+	   half-duplex there (peer speaks only after having received everything) */
+	my_total = 50 + vf_below(&io.r, 6000);
+	io.peer_target = 50 + vf_below(&io.r, 6000);
+	io.short_io = (int)vf_below(&io.r, 3) != 0;
+	io.fail_read_at = io.fail_write_at = -1;
+	if (fault == 1) io.fail_read_at = (long)vf_below(&io.r, 40);
+	if (fault == 2) io.fail_write_at = (long)vf_below(&io.r, 40);
+	snprintf(tp_case, sizeof tp_case, "%s sslio2 idx=%ld role=%d suite=%s ver=%04x layouts=%d/%d fault=%d at=%ld/%ld short=%d my_total=%zu peer_total=%zu",
+		base, idx, role, s.si->name, s.version, s.cc.layout, s.sc.layout, fault, io.fail_read_at, io.fail_write_at, io.short_io, my_total, io.peer_target);
+	br_sslio_init(&ioc, io.me->eng, io2_read, &io, io2_write, &io);
+	if (setjmp(io2_escape)) {
+		TP_VIOL("sslio2:spins-on-failed-transport", "a br_sslio call kept invoking the transport callbacks (200 times) after one of them had reported failure");
+		tp_pair_free(&s.p);
+		return;
+	}
+
+	/* phase 1: write everything (write / write_all mixed), flush */
+	while (sent < my_total && !failed_seen && guard ++ < 100000) {
+		size_t k = 1 + vf_below(&io.r, 700), i;
+		if (k > my_total - sent) k = my_total - sent;
+		for (i = 0; i < k; i ++) buf[i] = tp_stream_byte(io.me->tx_key, sent + i);
+		op = (int)vf_below(&io.r, 3);
+		if (op == 0) {
+			rc = br_sslio_write(&ioc, buf, k);
+			tp_check(io.me, "br_sslio_write");
+			vf_stat("sslio2_write_calls", 1);
+			if (rc > 0) {
+				if ((size_t)rc > k) { TP_VIOL("sslio2:write-returned-more-than-asked", "br_sslio_write returned more than len"); break; }
+				sent += (size_t)rc;
+			} else if (rc == 0) { TP_VIOL("sslio2:write-returned-zero", "br_sslio_write returned 0 for a non-empty buffer"); break; }
+			else failed_seen = 1;
+		} else {
+			rc = br_sslio_write_all(&ioc, buf, k);
+			tp_check(io.me, "br_sslio_write_all");
+			vf_stat("sslio2_write_all_calls", 1);
+			if (rc == 0) sent += k; else failed_seen = 1;
+		}
+		if (!failed_seen && vf_below(&io.r, 4) == 0) {
+			rc = br_sslio_flush(&ioc);
+			tp_check(io.me, "br_sslio_flush");
+			if (rc != 0) failed_seen = 1;
+		}
+	}
+	if (!failed_seen) {
+		rc = br_sslio_flush(&ioc);
+		tp_check(io.me, "br_sslio_flush");
+		if (rc != 0) failed_seen = 1;
+	}
+	/* phase 2: read the peer's stream (read / read_all mixed) */
+	guard = 0;
+	while (!failed_seen && got < io.peer_target && guard ++ < 100000) {
+		size_t k = 1 + vf_below(&io.r, 900), i;
+		if (fault == 3 && got > io.peer_target / 3) break;
+		if (vf_below(&io.r, 2)) {
+			if (k > io.peer_target - got) k = io.peer_target - got;
+			rc = br_sslio_read_all(&ioc, buf, k);
+			tp_check(io.me, "br_sslio_read_all");
+			vf_stat("sslio2_read_all_calls", 1);
+			if (rc == 0) {
+				for (i = 0; i < k; i ++) if (buf[i] != tp_stream_byte(io.me->rx_key, got + i)) { TP_VIOL("sslio2:wrong-byte", "br_sslio_read_all returned bytes the peer did not write at that position"); break; }
+				got += k;
+			} else failed_seen = 1;
+		} else {
+			rc = br_sslio_read(&ioc, buf, k);
+			tp_check(io.me, "br_sslio_read");
+			vf_stat("sslio2_read_calls", 1);
+			if (rc > 0) {
+				if ((size_t)rc > k) { TP_VIOL("sslio2:read-returned-more-than-asked", "br_sslio_read returned more than len"); break; }
+				for (i = 0; i < (size_t)rc; i ++) if (buf[i] != tp_stream_byte(io.me->rx_key, got + i)) { TP_VIOL("sslio2:wrong-byte", "br_sslio_read returned bytes the peer did not write at that position"); break; }
+				got += (size_t)rc;
+			} else if (rc == 0) { TP_VIOL("sslio2:read-returned-zero", "br_sslio_read returned 0"); break; }
+			else failed_seen = 1;
+		}
+	}
+	vf_stat("sslio2_cases", 1);
+	vf_distinct("sslio2_cfg", "r%d/e%d/%04x/f%d/l%d%d/s%d", role, s.si->enc, s.version, fault, s.cc.layout, s.sc.layout, io.short_io);
+	if (failed_seen) {
+		int e = br_ssl_engine_last_error(io.me->eng);
+		/* an error return without an injected failure is not expected: both sides are honest, so the
+		   transport only runs dry after the peer has sent everything and received everything */
+		if (!io.failed && (!io.eof || br_ssl_engine_last_error(io.peer->eng) != 0 || got < io.peer_target || io.peer->rx_done < sent)) {
+			snprintf(what, sizeof what, "a br_sslio call failed (rc=%d, last_error=%d, peer last_error=%d) although the transport never failed; sent=%zu/%zu (peer got %zu) got=%zu/%zu",
+				rc, e, br_ssl_engine_last_error(io.peer->eng), sent, my_total, (size_t)io.peer->rx_done, got, io.peer_target);
+			TP_VIOL("sslio2:failure-without-transport-failure", what);
+		} else if (io.failed) {
+			vf_stat("sslio2_injected_failures_reported", 1);
+			if (e == 0) {
+				snprintf(what, sizeof what, "transport callback failed (read#%ld/write#%ld) but last_error is 0 (looks like a clean closure)", io.fail_read_at, io.fail_write_at);
+				TP_VIOL("sslio2:transport-failure-reported-as-clean", what);
+			}
+			/* sticky: every later call fails too and the transport is not touched again */
+			{
+				long before = io.n_read + io.n_write;
+				int r1 = br_sslio_write_all(&ioc, buf, 10), r2 = br_sslio_read(&ioc, buf, 10), r3 = br_sslio_flush(&ioc);
+				tp_check(io.me, "br_sslio_* after failure");
+				if (r1 != -1 || r2 != -1 || r3 != -1) {
+					snprintf(what, sizeof what, "after a transport failure: write_all=%d read=%d flush=%d (all must be -1)", r1, r2, r3);
+					TP_VIOL("sslio2:calls-succeed-after-failure", what);
+				}
+				if (io.n_read + io.n_write != before) TP_VIOL("sslio2:transport-used-after-failure", "a transport callback was invoked after the engine had failed");
+			}
+		}
+	} else {
+		/* everything written must reach the peer application, in order (checked at each read by tp_act_read) */
+		int cr;
+		if (fault == 3) vf_stat("sslio2_close_while_peer_sends", 1);
+		cr = br_sslio_close(&ioc);
+		tp_check(io.me, "br_sslio_close");
+		vf_stat("sslio2_close_calls", 1);
+		/* let the peer finish */
+		for (guard = 0; guard < 100000 && io2_peer_step(&io); guard ++);
+		if (cr != (br_ssl_engine_last_error(io.me->eng) == 0)) {
+			snprintf(what, sizeof what, "br_sslio_close returned %d but last_error=%d", cr, br_ssl_engine_last_error(io.me->eng));
+			TP_VIOL("sslio2:close-return-inconsistent", what);
+		}
+		if (io.failed) {
+			/* the injected failure hit during the closure itself: an error is a correct report (a clean
+			   result is correct too when the peer's close_notify had already arrived) */
+			vf_stat("sslio2_failure_during_close", 1);
+		} else if (cr != 1 || br_ssl_engine_last_error(io.me->eng) != 0) {
+			snprintf(what, sizeof what, "br_sslio_close returned %d, last_error=%d on an orderly closure (got=%zu/%zu)", cr, br_ssl_engine_last_error(io.me->eng), got, io.peer_target);
+			TP_VIOL("sslio2:close-not-clean", what);
+		}
+		if (io.peer->rx_done != my_total || io.peer->rx_bad) {
+			snprintf(what, sizeof what, "peer application received %zu of the %zu bytes written through br_sslio (flushed and closed)", (size_t)io.peer->rx_done, my_total);
+			TP_VIOL("sslio2:stream-incomplete", what);
+		} else {
+			vf_stat("sslio2_streams_exact", 1);
+		}
+		if (fault != 3 && got != io.peer_target) TP_VIOL("sslio2:read-incomplete", "did not read everything the peer wrote");
+	}
+	tp_pair_free(&s.p);
+}
+
 int
 main(int argc, char **argv)
 {
@@ -1020,6 +1265,7 @@ main(int argc, char **argv)
 		else if (!strcmp(mode, "sslio")) sslio_case(seed, idx);
 		else if (!strcmp(mode, "decline")) decline_case(seed, idx);
 		else if (!strcmp(mode, "prealert")) prealert_case(seed, idx);
+		else if (!strcmp(mode, "sslio2")) sslio2_case(seed, idx);
 		vf_stat("cases", 1);
 	}
 	vf_stat("monitored_calls", tp_calls);
